@@ -1,3 +1,216 @@
-import DimModel.Lib.Dataset
+/-
+C13 - property theorems: a Dataset's variables always share the Dataset's axes, after any
+sequence of mutations (invariant by induction over the operation list).
+
+FINDING (K-C13): `inv_step` / `inv_reachable` as originally stated are FALSE for the model:
+`renameAxis` / `setDims` / `renameViaVar` may give two dataset axes the same name, and a later
+`setVar` that replaces a variable then leaves the variable's old axis object in `ds.axes` although
+no variable uses it (its *name* is among the new value's dims, so it is not "obsolete", but the new
+value was given the *first* axis of that name).  Concrete run from the empty dataset:
+  setVar "j" [("x",[],i)]; setVar "k" [("y",[],i)]; renameAxis (name "y") "x"; setVar "k" [("x",[],i)]
+ends in axes = [⟨0,"x"⟩, ⟨1,"x"⟩], vars = [("j",[0]), ("k",[0])]: axis 1 is neither direct nor used
+(conjunct 3 of `Inv` fails).  See `inv_step_counterexample`, `inv_reachable_counterexample` below.
+Every operation other than `setVar` preserves `Inv` unconditionally, and `setVar` does whenever the
+dataset's axis names are pairwise distinct (`SetVarOK`, defined in DimModel/Proofs/C13.lean).
+-/
+import DimModel.Proofs.C13
 namespace DimModel
+open DS
+
+/-- the empty dataset satisfies the invariant -/
+theorem inv_init : Inv init := by
+  refine ⟨?_, ?_, ?_, ?_, ?_⟩ <;> simp [init]
+
+/- ORIGINAL STATEMENT (false, see the header and `inv_step_counterexample`):
+theorem inv_step (s : State) (op : Op) (h : Inv s) : Inv (step s op).1
+-/
+/-- every mutation - including rejected ones - preserves the shared-axes invariant, provided a
+`setVar` is only applied when the dataset's axis names are pairwise distinct
+(`SetVarOK s op` is `NamesNodup s` for `op = .setVar ..` and `True` for the nine other operations) -/
+theorem inv_step_partial (s : State) (op : Op) (h : Inv s) (hok : SetVarOK s op) : Inv (step s op).1 := by
+  cases op with
+  | setVar key axs =>
+    rw [step_setVar]
+    split
+    · exact h
+    · split
+      · exact h
+      · exact inv_setVarBody s key axs h (fun ax hm _ => findAxis_of_mem hok hm)
+  | delVar key =>
+    simp only [step]
+    split
+    · exact h
+    · rename_i v hf; exact inv_delVar s key v h hf
+  | renameAxis d new =>
+    simp only [step]
+    split
+    · exact h
+    · split
+      · exact h
+      · exact inv_modify s _ _ (fun _ => rfl) h
+  | setDims names =>
+    simp only [step]
+    split
+    · exact h
+    · split
+      · exact h
+      · rename_i hlen _
+        refine inv_of_shape h (map_zip_eq _ _ (fun _ _ => rfl) _ _ ?_) rfl rfl
+        simpa using hlen
+  | setLabel d i l lk =>
+    simp only [step]
+    split
+    · exact h
+    · split
+      · split
+        · exact h
+        · exact inv_modify s _ _ (fun _ => rfl) h
+      · split
+        · exact h
+        · exact inv_modify s _ _ (fun _ => rfl) h
+  | setLabels d ls lk =>
+    simp only [step]
+    split
+    · exact h
+    · split
+      · exact h
+      · exact inv_modify s _ _ (fun _ => rfl) h
+  | replaceAxis d ls lk =>
+    simp only [step]
+    split
+    · exact h
+    · split
+      · exact h
+      · rename_i p hp _
+        exact inv_replaceAxis s p (axisIndex_lt hp) ls lk h
+  | renameKey old new =>
+    simp only [step]
+    split
+    · exact h
+    · split
+      · exact h
+      · rename_i v hf hne
+        exact inv_renameKey s old new v h hf (by simpa using hne) _ rfl
+  | appendAxis name ls lk =>
+    simp only [step]
+    split
+    · exact h
+    · split
+      · exact h
+      · exact inv_appendAxis s name ls lk h
+  | renameViaVar key d new =>
+    simp only [step]
+    split
+    · exact h
+    · split
+      · exact h
+      · split
+        · exact h
+        · exact inv_renameById s _ new h
+
+/-- the unconditional part: every operation other than `setVar` preserves the invariant -/
+theorem inv_step_of_not_setVar (s : State) (op : Op) (h : Inv s) (hop : ∀ key axs, op ≠ .setVar key axs) :
+    Inv (step s op).1 := by
+  apply inv_step_partial s op h
+  cases op <;> first | trivial | exact absurd rfl (hop _ _)
+
+/-- more generally from any state satisfying it.
+CHANGED: extra hypothesis `RunOK s ops` (= `SetVarOK` holds at every step of the run) -/
+theorem inv_run (s : State) (ops : List Op) (h : Inv s) (hok : RunOK s ops) : Inv (run s ops) := by
+  induction ops generalizing s with
+  | nil => exact h
+  | cons op ops ih => exact ih (step s op).1 (inv_step_partial s op h hok.1) hok.2
+
+/-- hence every state reachable from the empty dataset by a finite sequence of mutations satisfies it.
+CHANGED: extra hypothesis `RunOK init ops` -/
+theorem inv_reachable (ops : List Op) (hok : RunOK init ops) : Inv (run init ops) :=
+  inv_run init ops inv_init hok
+
+/-- runs without renaming operations keep the axis names distinct, hence are `RunOK` -/
+theorem runOK_of_renameFree (s : State) (ops : List Op) (h : Inv s) (hn : NamesNodup s)
+    (hr : ∀ op ∈ ops, op.renameFree = true) : RunOK s ops := by
+  induction ops generalizing s with
+  | nil => trivial
+  | cons op ops ih =>
+    have hok : SetVarOK s op := by cases op <;> first | exact hn | trivial
+    refine ⟨hok, ih _ (inv_step_partial s op h hok) (names_step s op h hn (hr op List.mem_cons_self)) ?_⟩
+    intro op' hm
+    exact hr op' (List.mem_cons_of_mem _ hm)
+
+/-- unconditional reachability theorem for histories without axis renaming
+(`renameAxis`, `setDims`, `renameViaVar`) -/
+theorem inv_reachable_renameFree (ops : List Op) (hr : ops.all Op.renameFree = true) : Inv (run init ops) :=
+  inv_reachable ops (runOK_of_renameFree init ops inv_init (by simp [NamesNodup, init])
+    (fun op hm => List.all_eq_true.1 hr op hm))
+
+/-- assigning an array whose labels disagree with an existing dataset axis (on any of its
+dimensions, in any position) raises ValueError and leaves the dataset exactly as it was -/
+theorem reject_restores (s : State) (key : String) (axs : List (String × List Label × Kind))
+    (n : String) (l : List Label) (k : Kind) (ex : AxisObj)
+    (hmem : (n, l, k) ∈ axs) (hex : findAxis s n = some ex) (hne : sameAxis ex n l = false) :
+    step s (.setVar key axs) = (s, .error .value) := by
+  rw [step_setVar]
+  split
+  · rfl
+  · rw [if_pos]
+    refine List.any_eq_true.2 ⟨(n, l, k), hmem, ?_⟩
+    simp only [hex, hne, Bool.not_false]
+
+/-- a changed axis name is immediately visible through every holder of the axis object: after
+`ds.axes[d].name = new` every variable that has the axis object at position `p` of the dataset
+sees the new name -/
+theorem rename_visible (s : State) (d : DimKey) (new : String) (p : Nat) (hp : axisIndex s d = .ok p)
+    (hnew : new ≠ "") (hinv : Inv s) (hplt : p < s.axes.length) :
+    nameOf (step s (.renameAxis d new)).1 (s.axes.getD p default).id = new := by
+  have hne : (new == "") = false := by simpa using hnew
+  simp only [step, hp, hne, Bool.false_eq_true, if_false]
+  unfold nameOf
+  rw [axisById_modify s p (fun ax => { ax with name := new }) (fun _ => rfl) hinv.2.1 hplt]
+  rfl
+
+/-- a changed label is visible the same way (the object is shared, not copied) -/
+theorem relabel_visible (s : State) (d : DimKey) (ls : List Label) (lk : Kind) (p : Nat)
+    (hp : axisIndex s d = .ok p) (hplt : p < s.axes.length)
+    (hlen : ls.length = (s.axes.getD p default).labels.length) (hinv : Inv s) :
+    ((axisById (step s (.setLabels d ls lk)).1 (s.axes.getD p default).id).map (·.labels)) = some ls := by
+  have hne : (ls.length != (s.axes.getD p default).labels.length) = false := by simpa using hlen
+  simp only [step, hp, hne, Bool.false_eq_true, if_false]
+  rw [axisById_modify s p (fun ax => { ax with labels := ls, kind := Lib.maybeCastKind ax.kind lk })
+    (fun _ => rfl) hinv.2.1 hplt]
+  rfl
+
+/-! ### the counterexample to the unconditional statements -/
+
+/-- a reachable dataset with two axes named "x" ... -/
+def cexOps : List Op :=
+  [.setVar "j" [("x", [], .i)], .setVar "k" [("y", [], .i)], .renameAxis (.name "y") "x"]
+/-- ... and the assignment that orphans axis object 1 -/
+def cexOp : Op := .setVar "k" [("x", [], .i)]
+
+theorem cex_inv_pre : Inv (run init cexOps) := by
+  have h2 : Inv (run init [.setVar "j" [("x", [], .i)], .setVar "k" [("y", [], .i)]]) :=
+    inv_reachable_renameFree _ (by decide)
+  exact inv_step_of_not_setVar _ (.renameAxis (.name "y") "x") h2 (fun _ _ h => by cases h)
+
+theorem cex_not_inv_post : ¬ Inv (step (run init cexOps) cexOp).1 := by
+  have he : (step (run init cexOps) cexOp).1 =
+      { axes := [{ id := 0, name := "x", labels := [], kind := .i }, { id := 1, name := "x", labels := [], kind := .i }],
+        vars := [("j", [0]), ("k", [0])], next := 2 } := by rfl
+  rw [he]
+  intro h
+  have h3 := h.2.2.1 { id := 1, name := "x", labels := [], kind := .i } (by simp)
+  simp [used] at h3
+
+/-- the original `inv_step` is false -/
+theorem inv_step_counterexample : ∃ s op, Inv s ∧ ¬ Inv (step s op).1 :=
+  ⟨run init cexOps, cexOp, cex_inv_pre, cex_not_inv_post⟩
+
+/-- the original `inv_reachable` is false -/
+theorem inv_reachable_counterexample : ∃ ops, ¬ Inv (run init ops) :=
+  ⟨cexOps ++ [cexOp], cex_not_inv_post⟩
+
+/-- non-vacuity: a two-step history from the empty dataset -/
+example : Inv (run init [.setVar "a" [("x", [.num 1, .num 2], .i)], .setVar "b" [("x", [.num 1, .num 2], .i), ("y", [.str "u"], .O)]]) :=
+  inv_reachable_renameFree _ (by decide)
+
 end DimModel
